@@ -36,11 +36,11 @@ STEPS = [(2, 0.5), (4, 0.2), ("exact", 0)]
 
 
 def COST(desc):
-    return 20 if desc.get("fam") == "big" else (3 if desc.get("nroots", 1) > 1 else 1)
+    return 20 * desc.get("nroots", 1) if desc.get("fam") in ("big", "cbig") else (3 if desc.get("nroots", 1) > 1 else 1)
 
 
 def BOUND(tier):
-    return {"families": ["eph n=4", "elec n=4", "two n=4", "spin n=4", "complex spin n=4", "spin n=10 (davidson forced)"], "schedules": "all sequences of length <= 3 over 3 steps + one long schedule",
+    return {"families": ["eph n=4", "elec n=4", "two n=4", "spin n=4", "complex spin n=4", "spin n=10 real and complex Hermitian (local problems >= 1000: iterative eigensolver actually used), 1..2 (3) roots"], "schedules": "all sequences of length <= 3 over 3 steps + one long schedule",
             "nroots": [1, 2, 3, 4], "trees": "plane trees <= 4 nodes"}
 
 
@@ -59,6 +59,9 @@ def cases(tier, seed):
                             yield {"k": "chain", "fam": fam, "n": n, "sector": sec, "method": method, "algo": algo, "nroots": nroots, "omega": omega}
     for method in ("1site", "2site"):
         yield {"k": "chain", "fam": "big", "n": 10, "sector": [0], "method": method, "algo": "davidson", "nroots": 1, "omega": False}
+    # local problems of dimension >= 1000 are the only ones that reach the iterative eigensolver: real and complex Hermitian, one and several roots
+    for fam, nroots in (("big", 2), ("cbig", 1), ("cbig", 2)) + ((("cbig", 3), ("big", 3)) if not quick else ()):
+        yield {"k": "chain", "fam": fam, "n": 10, "sector": [0], "method": "2site", "algo": "davidson", "nroots": nroots, "omega": False}
     for N in (2, 3, 4):
         for parent in plane_trees(N):
             for algo in ("davidson", "arpack", "direct"):
@@ -69,7 +72,7 @@ def cases(tier, seed):
 def build(fam, n, seed):
     from renormalizer.model import Op, Model, basis as ba
     from renormalizer.mps import Mpo
-    if fam == "cspin":
+    if fam in ("cspin", "cbig"):
         ch = Chain("spin", n, seed)
         rs = env.rng(seed, ("cspin", n))
         terms = []
@@ -106,7 +109,7 @@ def run_chain(desc, seed):
     from renormalizer.utils import OptimizeConfig
     fam, n, sec = desc["fam"], desc["n"], desc["sector"]
     ch = build(fam, n, seed)
-    H = Mpo(ch.new_model() if fam not in ("cspin",) else ch.model, ch.h_terms)
+    H = Mpo(ch.new_model() if fam not in ("cspin", "cbig") else ch.model, ch.h_terms)
     Hd = np.asarray(H.todense())
     viol = {}
     mask = sector_projector(ch.sigmaqn(), sec)
@@ -125,7 +128,7 @@ def run_chain(desc, seed):
     # exact bond dimension
     probe = ch.random_mps(sec, 2, "probe")
     mexact = int(max(probe.bond_dims_exact))
-    if fam == "big":
+    if fam in ("big", "cbig"):
         schedules = [[(16, 0.4), (16, 0.2), (16, 0), (16, 0)]]
     else:
         schedules = [list(s) for L in (1, 2, 3) for s in itertools.product(STEPS, repeat=L)]
@@ -138,11 +141,11 @@ def run_chain(desc, seed):
     for isched, sched in enumerate(schedules):
         proc = [[mexact if m == "exact" else m, p] for m, p in sched]
         ends_exact = sched[-1][0] == "exact" and len(sched) >= 1 and fam != "two"
-        converging = len(sched) == 5 or fam == "big"
+        converging = len(sched) == 5 or fam in ("big", "cbig")
         env.reseed(seed, ("c08", fam, n, tuple(sec), isched))
         try:
             m0 = max(2, proc[0][0]) if not converging else max(mexact, 2)
-            mps = Mps.random(ch.model if fam == "cspin" else ch.new_model(), np.array(sec), m0, percent=1.0)
+            mps = Mps.random(ch.model if fam in ("cspin", "cbig") else ch.new_model(), np.array(sec), m0, percent=1.0)
         except FloatingPointError:
             continue
         if is_complex:
